@@ -435,6 +435,13 @@ def c03(ctx):
     # restart after every single operation; counters probed after every restart
     t1, s1 = vault_walk(ctx, wd, "c03", shards=16 if th else 6,
                         env={"VERIF_REOPEN_EACH": 1, "VERIF_PROBE_EVERY": 1, "VERIF_SAMPLE_PCT": 100 if th else 40})
+    # what was acknowledged survives also when other calls failed in between: the same walk with failing saves (an error reply
+    # acknowledges nothing; the next successful save and a restart must show exactly the acknowledged state)
+    cfgf = vault_cfg(["A"], ["x", "E"], 3, faults=("none", "save"))
+    wdf, runf, nsf, nef = vault_graph(ctx, "c03faults", cfgf, workers=4)
+    t2, s2 = vault_walk(ctx, wdf, "c03faults", shards=8 if th else 4, env={"VERIF_REOPEN_EACH": 1, "VERIF_PROBE_EVERY": 1})
+    t1 = merge_tot(t1, t2)
+    ns, ne = ns + nsf, ne + nef
     gold = golden_check(ctx)
     cov = {"states": ns, "transitions": t1.get("targets_covered", 0), "traces_validated_against_impl": gold["validated"],
            "samples": s1[:2] + gold["samples"], "restarts_after_operation": t1.get("reopens_after_op", 0),
@@ -770,8 +777,11 @@ def c05(ctx):
     st = validate_histories(ctx, "VaultTrace", "VaultTrace.cfg", os.path.join(wd2, "trace.ndjson"), 16 if th else 8,
                             extra_files={"dict.ndjson": os.path.join(wd2, "dict.ndjson")}, what="history (marker scan)",
                             describe=describe_vault_event)
-    # temporaries: leftover temp files of killed saves are scanned in the C04 driver; here the kill cases of one scenario
-    cov = {"evaluations": rt["counters"]["evaluations"] + rc["counters"]["scans"],
+    # the backup task reads the live file: while an upload is in flight and after failed uploads the state directory must hold
+    # the database file only, mode 0600 (no readable staging copy)
+    results, wd3, _ = ctx.godrive("backup", "^TestBackupTimelines$", env={"VERIF_TRACES": 200 if th else 40}, name="backup-scan", timeout=1700)
+    rb = ctx.take(results, "backup-timelines")
+    cov = {"evaluations": rt["counters"]["evaluations"] + rc["counters"]["scans"], "backup_timelines_scanned": rb["counters"].get("timelines", 0),
            "distinct_nontrivial": rt["counters"]["evaluations"],
            "rule": "tamper cases: every single-bit flip and every truncation length of a saved database file, every single-field splice between "
                    "valid databases (same KEK, other KEK), cross-field moves, 16-byte ciphertext splices, schema versions, foreign KEKs -- each "
@@ -1245,6 +1255,21 @@ def c13(ctx):
                             {"dict.ndjson": os.path.join(wd, "dict.ndjson")}, describe=describe_store_event)
     results, wd2, _ = ctx.godrive("store", "^TestCacheGray$", env={"VERIF_TRACES": 600 if th else 120}, name="gray")
     rg = ctx.take(results, "store-gray")
+    # real concurrency (race detector): lookups and installing polls overlapping their flushes on a slow cache; at quiescence
+    # CacheVersions must hold (the last document written is the one made from the last state)
+    results, wd4, code = ctx.godrive("store", "^TestCacheOrder$", env={"VERIF_TRACES": 200 if th else 25}, name="cacheorder", race=True, allow_fail=True, timeout=1700)
+    blocks, real = race_blocks(os.path.join(wd4, "driver.out"))
+    if blocks and not real:
+        raise ToolTrouble("race inside the harness itself (no verdict):\n" + blocks[0][:2500])
+    if real:
+        i = real[0].index("WARNING: DATA RACE")
+        ctx.violation("data race (cache flush)", "the race detector reports a data race among lookups, polls and cache flushes:\n" + real[0][i:i + 1800],
+                      {"kind": "race", "report": real[0][i:i + 6000]})
+    elif "store-cacheorder" not in results:
+        raise ToolTrouble("cache-order driver died:\n" + open(os.path.join(wd4, "driver.out"), errors="replace").read()[-3000:])
+    if "store-cacheorder" in results:
+        ro = ctx.take(results, "store-cacheorder")
+        cov["concurrent_flush_runs"] = ro["counters"].get("runs", 0)
     # the file cache itself: atomic replacement, 0600, old-or-new under kill / injected errors at every system call
     model = atomicfile_model(ctx)
     r, ok, nruns = atomicfile_conformance(ctx, ["cachewrite"])
@@ -1357,6 +1382,18 @@ def c18(ctx):
                                  name="roundtrip", timeout=3000)
     rr = ctx.take(results, "e2e-roundtrip")
     okj, nj = validate_journeys(ctx, os.path.join(wd, "trace.ndjson"), 8)
+    # concurrent readers of distinct large values through the real HTTP API, race detector on
+    results, wd3, code = ctx.godrive("e2e", "^TestConcurrentGets$", env={"VERIF_TRACES": 120 if th else 25}, name="concgets", race=True, allow_fail=True, timeout=1700)
+    blocks, real = race_blocks(os.path.join(wd3, "driver.out"))
+    if blocks and not real:
+        raise ToolTrouble("race inside the harness itself (no verdict):\n" + blocks[0][:2500])
+    if real:
+        i = real[0].index("WARNING: DATA RACE")
+        ctx.violation("data race (concurrent gets)", "the race detector reports a data race while concurrent requests are served:\n" + real[0][i:i + 1800],
+                      {"kind": "race", "report": real[0][i:i + 6000]})
+    elif "e2e-concurrent" not in results:
+        raise ToolTrouble("concurrent-get driver died:\n" + open(os.path.join(wd3, "driver.out"), errors="replace").read()[-3000:])
+    conc_reads = ctx.take(results, "e2e-concurrent")["counters"].get("reads", 0) if "e2e-concurrent" in results else 0
     # the CLI table
     cli = build_setec_cli(ctx)
     results, wd2, _ = ctx.godrive("e2e", "^TestPutCli$", env={"VERIF_SETEC_BIN": cli, "VERIF_REPS": 6 if th else 2}, name="putcli", timeout=3000)
@@ -1377,7 +1414,7 @@ def c18(ctx):
                    "flag subsets x several concrete inputs; TLC (PutCliTrace) checks exit status, number of requests and the stored bytes against PutCli!Allowed. "
                    "distinct = values + CLI runs",
            "samples": (rr.get("samples") or [])[:2] + (rc.get("samples") or [])[:3], "values": rr["counters"]["values"], "bytes_put": rr["counters"]["bytes"],
-           "journeys_validated": okj, "cli_runs": rc["counters"]["runs"], "cli_lines_validated": tot["validated"],
+           "journeys_validated": okj, "concurrent_large_gets": conc_reads, "cli_runs": rc["counters"]["runs"], "cli_lines_validated": tot["validated"],
            "states": tot["states"], "transitions": tot["generated"], "traces_validated_against_impl": okj + 1}
     return "exploration", cov, ["universality over byte strings is by generation across the listed classes, not enumeration; the specification fixes the hops, the order "
                                 "and the one permitted exception", "WhoIs is the injected seam (every caller is granted everything); the interactive terminal path of "
